@@ -387,6 +387,10 @@ func (g *Gen) stdSpecial(st *State, name string, call *ssa.CallCommon, result ss
 		r := g.freshRef(st)
 		g.setHs(st, r, emptyAr)
 		st.heap[bufLenKey] = g.def("H", "(Array Int Int)", fmt.Sprintf("(store %s %s 0)", g.bufLenArr(st, false), r))
+		if g.hashSize == nil {
+			g.hashSize = map[string]int{}
+		}
+		g.hashSize[r] = map[string]int{"crypto/md5.New": 16, "crypto/sha1.New": 20, "crypto/sha256.New": 32, "crypto/sha512.New384": 48, "crypto/sha512.New": 64}[name]
 		g.setResult(result, Val{T: r, Kind: "err", Ty: result.Type()})
 		g.trustedUsed[name+": returns a fresh hash object (modelled as the record of the bytes written to it)"] = true
 		return true
@@ -613,6 +617,8 @@ func (g *Gen) callCommon(fn *ssa.Function, st *State, call *ssa.CallCommon, resu
 						e2[n] = rv
 						e2["$p:"+n] = Val{}
 					}
+					e2[fmt.Sprintf("res_%d", i)] = rv // positional result name (callees without named results)
+					e2[fmt.Sprintf("$p:res_%d", i)] = Val{}
 					if cc != nil && i < len(cc.Results) {
 						e2[cc.Results[i]] = rv
 						e2["$p:"+cc.Results[i]] = Val{}
